@@ -837,18 +837,82 @@ func c04RunRepeat(u c04Unit, n int) explore.Result {
 	return res
 }
 
+// ---- family 6: a stalled client ------------------------------------------------------------------
+//
+// A client that stops sending (without closing) in any protocol state holds up nobody: other connections are
+// accepted and served while it sits there, and it can still be completed afterwards.
+
+func c04StalledStates() []neighbour {
+	st := pgproto.Startup("user", "stalled")
+	q := pgproto.Query(progRows)
+	bs := c04BinaryStream()
+	out := neighbourStates()
+	out = append(out,
+		neighbour{"half of a start-up packet sent", [][]byte{st[:9]}, st[9:], "*Z"},
+		neighbour{"half of a Query message sent", [][]byte{st, q[:7]}, q[7:], "TDCZ"},
+		neighbour{"only the type byte of a message sent", [][]byte{st, q[:1]}, q[1:], "TDCZ"},
+		neighbour{"inside binary COPY-in, half of a row sent", [][]byte{st, pgproto.Query("copyb"), pgproto.CopyData(bs[:30])}, pgproto.Cat(pgproto.CopyData(bs[30:]), pgproto.CopyDone()), "CZ"},
+		neighbour{"inside COPY-in, half of a CopyData message sent", [][]byte{st, pgproto.Query("copyt"), pgproto.CopyData([]byte("abcdef"))[:8]}, pgproto.Cat(pgproto.CopyData([]byte("abcdef"))[8:], pgproto.CopyDone()), "CZ"},
+		neighbour{"inside an oversized message that is being skipped", [][]byte{st, pgproto.Msg('Q', make([]byte, c04Limit+100))[:c04Limit/2]}, pgproto.Cat(pgproto.Msg('Q', make([]byte, c04Limit+100))[c04Limit/2:], pgproto.Sync()), "~Z"},
+	)
+	return out
+}
+
+func c04RunStalled(nb neighbour, auth bool) (res explore.Result) {
+	res.Outcome = "stalled-client"
+	res.Key = fmt.Sprint("stalled", nb.Name, auth)
+	w := &c04World{rec: &script.Rec{Extra: copyHandler}}
+	opts := []wire.OptionFn{wire.MessageBufferSize(c04Limit)}
+	srv, err := harness.NewServer(c04Parse(w), opts...)
+	if err != nil {
+		res.Engine = err.Error()
+		return res
+	}
+	stalled, problem := startNeighbour(srv, nb)
+	if problem != "" {
+		res.Engine = problem
+		return res
+	}
+	what := fmt.Sprintf("a client stalled in state %q", nb.Name)
+	// two further connections, one after the other, are served completely
+	for i := 0; i < 2; i++ {
+		pc := srv.Connect()
+		out, st := pc.Step(pgproto.Cat(pgproto.Startup("user", "probe"), pgproto.Query(progRows), pgproto.Parse("", progRows), pgproto.Bind("", "", nil, nil, nil), pgproto.Execute("", 0), pgproto.Sync()))
+		k := harness.Kinds(out)
+		if st == memnet.Wedged {
+			blocked, dump := harness.LibraryBlocked()
+			res.Poison = true
+			if !blocked {
+				res.Engine = "watchdog expired but no blocked library goroutine found:\n" + dump
+				return res
+			}
+			res.Fail("other-connection-held-up", fmt.Sprintf("%s: connection %d that arrived meanwhile got %q and then nothing; its goroutine is blocked:\n%s", what, i+1, k, dump))
+			return res
+		}
+		if !strings.HasSuffix(k, "ZTDCZ12DCZ") || st != memnet.Parked {
+			res.Fail("other-connection-held-up", fmt.Sprintf("%s: connection %d that arrived meanwhile was answered %q (%s)", what, i+1, k, st))
+			return res
+		}
+		pc.End()
+	}
+	finishNeighbour(&res, stalled, nb, what)
+	res.Trans = []string{fmt.Sprintf("stalled|%s|served", nb.Name)}
+	srv.Stop()
+	return res
+}
+
 func init() {
 	explore.Register(&explore.Check{
 		ID:          "C04",
 		Level:       "fault_enumeration",
 		Technique:   "exhaustive enumeration of truncation points, field mutations, raw byte strings and transport fault positions (k-th read, k-th write, n-th byte) over a corpus of canonical sessions, each run on a real server inside crash-isolated worker processes, followed by a probe connection on the same server",
-		Rule:        "prefix closure: every byte prefix of ~190 canonical sessions (startup / SSL refusal / auth x simple, extended, COPY text+binary, oversized, unknown, terminate); mutations: every length / count field of every message type x {0,1,n-1,n+1,255,256,32767,32768,65535} or {0,1,3,4,n-1,n+1,2^31-1,2^31,2^32-2,2^32-1}, body as is and cut/extended to match; raw: all strings of length <= 5 (fresh) / <= 3 (after startup) over {00,01,04,08,7F,80,FF,Q,p}; faults: every k-th read fails / is short, every k-th write fails, failure after every n-th byte; repetition: each of ~23 protocol units (declined SSLRequest, Sync, Query, extended cycles, COPY units, stray / oversized / unknown messages) repeated N times on one connection with live heap and goroutine-stack growth bounded independently of N; non-trivial = the case ends the connection before its natural end or carries a mutated field",
+		Rule:        "prefix closure: every byte prefix of ~190 canonical sessions (startup / SSL refusal / auth x simple, extended, COPY text+binary, oversized, unknown, terminate); mutations: every length / count field of every message type x {0,1,n-1,n+1,255,256,32767,32768,65535} or {0,1,3,4,n-1,n+1,2^31-1,2^31,2^32-2,2^32-1}, body as is and cut/extended to match; raw: all strings of length <= 5 (fresh) / <= 3 (after startup) over {00,01,04,08,7F,80,FF,Q,p}; faults: every k-th read fails / is short, every k-th write fails, failure after every n-th byte; stalled client: a connection parked in each of 11 protocol states (half a start-up packet, half a message, inside text / binary COPY, skipping an oversized message, discarding until Sync ...) while two further connections must be served completely; repetition: each of ~23 protocol units (declined SSLRequest, Sync, Query, extended cycles, COPY units, stray / oversized / unknown messages) repeated N times on one connection with live heap and goroutine-stack growth bounded independently of N; non-trivial = the case ends the connection before its natural end or carries a mutated field",
 		Assumptions: []string{"which error (if any) is sent for malformed input is not asserted", "wedge detection: a 60 s watchdog whose expiry only counts when a stack dump shows a blocked library goroutine; livelock: more than 64 reads after EOF", "live-heap bound 4*max(L,4096)+8 MiB sampled with forced GC"},
 		Enumerate:   c04Enumerate,
 		Bounds: func(tier string) map[string]any {
 			return map[string]any{"sessions": len(c04Sessions()), "mutation_targets": len(c04Targets()), "raw_length_fresh": c04RawLen(tier), "limit": c04Limit, "repetition_units": len(c04Units()), "repetitions": c04Reps(tier), "stack_bound": c04StackBound}
 		},
-		RequiredOutcomes: []string{"whole-session", "prefix", "mutation-session", "mutation-copy", "mutation-startup", "mutation-auth", "transport-fault", "raw-bytes", "repetition"},
+		RequiredOutcomes: []string{"whole-session", "prefix", "mutation-session", "mutation-copy", "mutation-startup", "mutation-auth", "transport-fault", "raw-bytes", "repetition", "stalled-client", "helper-amplification"},
 	})
 }
 
@@ -954,6 +1018,39 @@ func c04Enumerate(tier string, emit explore.Emit) {
 			addSlow(memnet.Faults{FailAfterRead: b}, fmt.Sprintf("after %d bytes reads and writes fail", b))
 			addSlow(memnet.Faults{ReadErrAt: b + 1}, fmt.Sprintf("after %d bytes reads fail (writes still succeed)", b))
 		}
+	}
+	// 7. the documented helpers on client-controlled text: a short query naming a huge positional index
+	for _, idx := range []string{"$65536", "$70000", "$1000000", "$20000000", "$99999999", "$4294967296", "$9223372036854775807", "$99999999999999999999"} {
+		for _, via := range []string{"Query", "Parse"} {
+			idx, via := idx, via
+			emit(explore.Case{Family: "helper-amplification", Size: 2, Desc: func() any { return map[string]any{"query": "select $1 " + idx, "via": via} },
+				Run: func() explore.Result {
+					var res explore.Result
+					res.Outcome = "helper-amplification"
+					res.Key = "amplify " + idx + via
+					q := "select $1 " + idx
+					msgs := pgproto.Query(q)
+					if via == "Parse" {
+						msgs = pgproto.Cat(pgproto.Parse("s", q), pgproto.Describe('S', "s"), pgproto.Sync())
+					}
+					o := c04Run(false, c04Feed{Stream: pgproto.Cat(pgproto.Startup("user", "u"), msgs, pgproto.Query(progRows))}, true)
+					what := fmt.Sprintf("%s %q (the handler calls ParseParameters on it as documented)", via, q)
+					if !c04Common(&res, o, what) {
+						return res
+					}
+					if o.alloc > 64<<20 {
+						res.Fail("memory-balloon", fmt.Sprintf("%s: %d bytes were allocated while serving a %d-byte message: an allocation is sized by a number the client merely named", what, o.alloc, len(msgs)))
+					}
+					res.Trans = []string{"serving|" + via + " with a huge index|closed"}
+					return res
+				}})
+		}
+	}
+	// 6. a stalled client
+	for _, nb := range c04StalledStates() {
+		nb := nb
+		emit(explore.Case{Family: "stalled-client", Size: 4, Desc: func() any { return map[string]any{"stalled_in_state": nb.Name} },
+			Run: func() explore.Result { return c04RunStalled(nb, false) }})
 	}
 	// 5. repetition
 	for _, u := range c04Units() {
